@@ -1378,7 +1378,7 @@ impl SvgElement {
         }
     }
 
-    fn resolve_size_delta(&mut self) {
+    pub(crate) fn resolve_size_delta(&mut self) {
         // assumes "width"/"height"/"r"/"rx"/"ry" are numeric if present
         // The deltas apply to the size `Position` will see: a round shape given by a
         // radius is measured by it (the attribute then holds half the size), anything
